@@ -1,5 +1,6 @@
 import Model.TlsAuth
 import Model.TlsAuthSess
+import Model.TlsAuthDial
 import Driver.Util
 namespace Driver.C20
 open Util TlsAuth
@@ -239,6 +240,100 @@ def parseSessOp (ws : List String) : Option SessOp :=
     if dials.isEmpty then none else pure { cfg := { static := st, provider := pv }, dials := dials }
   | _ => none
 
+/-! ### dialling: every dialer configuration, several dials through one session (ops `dialplan`, `dialsec`) -/
+
+def loopback6 : List UInt8 := strBytes "::1"
+
+/-- the certificates of the dial scenarios (harness/cmd/c20/dial.go `getDialEnv`): every leaf carries the IP SANs
+    127.0.0.1 and ::1; crypto/x509 matches a bracketed IPv6 ServerName against IP SANs with the brackets stripped,
+    which is written here as the SAN "[::1]" -/
+def dialCert (n kind : String) : Option ServerCert := do
+  let own ← nodeName n
+  let peer ← nodeName (otherNode n)
+  let ips := [loopback, strBytes "[::1]"]
+  match kind with
+  | "good" => some { sans := [own, snExample] ++ ips, signer := .fileCA }
+  | "poolgood" => some { sans := [own, snExample] ++ ips, signer := .poolCA }
+  | "peer" => some { sans := [peer, snExample] ++ ips, signer := .fileCA }
+  | "other" => some { sans := [strBytes "other.verif.example"], signer := .fileCA }
+  | "rogue" => some { sans := [own, snExample] ++ ips, signer := .rogue }
+  | _ => none
+
+/-- `<node>:<kind>`: n = by name over IPv4, i = IPv4 literal without hostname, 6 = IPv6 literal without hostname,
+    m = by name over IPv6, x = no valid connect address, z = port 0, f = nobody listens on the port; a trailing `!` =
+    the caller's VerifyConnection callback (if SslOpts.Config is given) rejects this dial -/
+def parseDialTry (certA certB : String) (s0 : String) : Option DialTry :=
+  let veto := s0.endsWith "!"
+  let s := if veto then (s0.dropEnd 1).toString else s0
+  match s.splitOn ":" with
+  | [n, k] => do
+    let name ← nodeName n
+    let cert ← dialCert n (if n == "a" then certA else certB)
+    let p4 := strBytes (if n == "a" then "9042" else "9043")
+    let p6 := strBytes (if n == "a" then "9046" else "9047")
+    match k with
+    | "n" => some ⟨⟨name, some loopback, p4⟩, true, cert, veto⟩
+    | "i" => some ⟨⟨[], some loopback, p4⟩, true, cert, veto⟩
+    | "6" => some ⟨⟨[], some loopback6, p6⟩, true, cert, veto⟩
+    | "m" => some ⟨⟨name, some loopback6, p6⟩, true, cert, veto⟩
+    | "x" => some ⟨⟨name, none, p4⟩, true, cert, veto⟩
+    | "z" => some ⟨⟨name, some loopback, strBytes "0"⟩, true, cert, veto⟩
+    | "f" => some ⟨⟨name, some loopback, strBytes "9049"⟩, false, cert, veto⟩
+    | _ => none
+  | _ => none
+
+/-- `-` (no SslOpts) or `<cfg>:<ehv>:<ca>` -/
+def parseSsl (s : String) : Option (Option SslOpts) :=
+  if s == "-" then some none else
+  match s.splitOn ":" with
+  | [cfg, ehv, ca] => do
+    let cfg ← parseTlsCfg cfg
+    let ehv ← parseBool ehv
+    let ca ← parseFileSt ca
+    pure (some { cfg := cfg, enableHostVerification := ehv, ca := ca, cert := .absent, key := .absent })
+  | _ => none
+
+structure DialOp where
+  c : DialCfg
+  dials : List (String × DialTry)
+
+def parseDialOp (ws : List String) : Option DialOp :=
+  match ws with
+  | hd :: d :: ssl :: certA :: certB :: dials => do
+    let hd ← parseBool (← dropPrefix "hd=" hd)
+    let d ← parseBool (← dropPrefix "d=" d)
+    let ssl ← parseSsl (← dropPrefix "ssl=" ssl)
+    let ds ← dials.mapM (fun w => (parseDialTry certA certB w).map (fun t => (w, t)))
+    if ds.isEmpty then none else pure { c := { hostDialer := hd, dialer := d, ssl := ssl }, dials := ds }
+  | _ => none
+
+def ascii (bs : List UInt8) : String := String.ofList (bs.map (fun b => Char.ofNat b.toNat))
+
+def showDialRes : DialRes → String
+  | .caller => "caller"
+  | .panicNoAddr => "crash:ConnectAddress"
+  | .errNoPort => "err:no-port"
+  | .errDial => "err:dial"
+  | .plain => "plain"
+  | .tls => "tls"
+  | .errTls => "err:tls"
+
+/-- what the harness can see of one dial: the TCP address (from the caller's Dialer, or the listener a connection
+    arrived at — so not for a failed dial of the driver's own net.Dialer), the SNI the node received, the server name
+    crypto/tls reports to the caller's VerifyConnection callback (ConnectionState.ServerName = the name indicated in the
+    ClientHello, empty for IP literals; caller's Config and an accepted handshake only), the result, DialedHost.DisableCoalesce -/
+def showDialObs (c : DialCfg) (o : DialObs) : String :=
+  let tcp := match o.tcp with
+    | some a => if decide (o.res = DialRes.errDial) && !c.dialer then "-" else ascii a
+    | none => "-"
+  let sni := match o.serverName with | some sn => toHex (sniOf sn) | none => "-"
+  let callerCfg := match c.ssl with | some s => s.cfg.isSome | none => false
+  let vsn := match o.serverName with
+    | some sn => if callerCfg && decide (o.res = DialRes.tls) then toHex (sniOf sn) else "-"
+    | none => "-"
+  let co := match o.res with | .plain => "0" | .tls => "1" | _ => "-"
+  s!"tcp={tcp} sni={sni} vsn={vsn} res={showDialRes o.res} coalesce-off={co}"
+
 def parseDocCfg (s : String) : Option (Option Bool) :=
   match s with
   | "nil" => some none | "false" => some (some false) | "true" => some (some true) | _ => none
@@ -349,6 +444,42 @@ def step (_ : Unit) (ws : List String) : Unit × String :=
         s!"{d.1} prov={showList (e.prov.map toString)} tok={match e.token with | some t => toHex t | none => "none"} " ++
           (if e.ready then "ready" else "refused")))
     | none => "bad-op"
+  -- every dialer configuration, several dials through one session, model vs code
+  | "dialplan" :: rest => match parseDialOp rest with
+    | some op =>
+      match connConfig op.c with
+      | .error _ => "err:tlsconfig"
+      | .ok k =>
+        match dialAll op.c (op.dials.map (·.2)) with
+        | .error _ => "err:tlsconfig"
+        | .ok obs =>
+          let shared := match k with
+            | .caller => "none"
+            | .dflt _ none => "none"
+            | .dflt _ (some t) =>
+              if dialFinal wrapCode (trustOf op.c) (cbOf op.c) (some t) (op.dials.map (·.2)) = some t then "same" else "ALIAS"
+          " | ".intercalate ((op.dials.zip obs).map (fun (d, o) => d.1 ++ " " ++ showDialObs op.c o)) ++ " || shared=" ++ shared
+    | none => "bad-op"
+  -- C20_every_dialer / C20_tls_per_dial: the SPECIFICATION side (Spec.dialDemand: TLS on every connection the driver
+  -- dials itself when SslOpts is set, handed on exactly when the documented table / the expected name / the CAs say so)
+  | "dialsec" :: rest => match parseDialOp rest with
+    | some op =>
+      if op.c.hostDialer then "bad-op" else
+      match op.c.ssl.map setupTLSConfig with
+      | some (.error _) => "bad-op"
+      | _ =>
+        if op.dials.any (fun d => d.2.host.ip.isNone || d.2.host.port == strBytes "0" || !d.2.dialOk) then "bad-op" else
+        " | ".intercalate (op.dials.map (fun d =>
+          let e := Spec.dialDemand op.c.ssl d.2.host.name d.2.cert d.2.veto
+          s!"{d.1} wrapped={bit e.wrapped} proceeded={bit e.proceeded}"))
+    | none => "bad-op"
+  -- credentials never show up in what the driver logs or reports (monitor evaluated by the harness on the logger
+  -- output and the text of the returned error; C20_credentials_noninterference: nothing but the token depends on them)
+  | "noleak" :: m :: h :: st :: pv :: fs => match parseConn h st pv, fs.mapM parseFrame with
+    | some (h, cfg), some fs =>
+      if m != "ns" && m != "cx" then "bad-op"
+      else if (connect cfg h fs).outcome = .crash then "crash:authenticateHandshake" else "clean"
+    | _, _ => "bad-op"
   -- C20_session_config: both Authenticator and AuthProvider ⇒ refused before anything is dialled
   | "sesscfg" :: h :: st :: pv :: fs => match parseConn h st pv, fs.mapM parseFrame with
     | some (_, cfg), some _ =>
